@@ -5,8 +5,11 @@ package fsi18loader
 // Machine-checked contracts for /verif (gowp). Comment-only file: it adds no code.
 
 // C20: each translation file is read, flattened and handed to Set, or its error is returned
+// the file callback runs on several consumers of the tree walk at once: it shares nothing
+// through the variables of Load
 //@ func Load$2 [C20]
 //@   layers contract trace
+//@   captures readonly
 //@   trace Filespace.ReadFile as READ bind rd
 //@   trace JSONToPlainStringMap as PARSE bind parsed
 //@   trace I18N.Set as SET
